@@ -229,8 +229,12 @@ func bHTTPFilter(n *Node) *hcmv3.HttpFilter {
 		f.ConfigType = &hcmv3.HttpFilter_TypedConfig{TypedConfig: &anypb.Any{TypeUrl: xdsresource.RateLimitTypeURL, Value: badBytes}}
 	case "HFTypedStruct":
 		ts := &udpatypev1.TypedStruct{TypeUrl: "type.googleapis.com/envoy.extensions.filters.http.local_ratelimit.v3.LocalRateLimit"}
+		if n.hasFlag("foreign-inner") {
+			// generator-only: the TypedStruct of another http filter (an EnvoyFilter patch); the decoder looks at the fields only
+			ts.TypeUrl = "type.googleapis.com/envoy.extensions.filters.http.lua.v3.Lua"
+		}
 		if tb := n.arg(0); tb.isNone() {
-			if len(n.Args) > 1 { // generator-only: value present without the key
+			if n.hasFlag("value-without-key") { // generator-only: value present without the key
 				ts.Value = &structpb.Struct{Fields: map[string]*structpb.Value{"stat_prefix": structpb.NewStringValue("x")}}
 			}
 		} else {
